@@ -55,7 +55,7 @@ pub fn run(p: &Prog, cfg: &Cfg, rep: &mut Report) {
                 Ok(w) => w,
                 Err(_) => return Err(viol(format!("panic:{}", doc.class), "decoding the contract-level message panicked", json!({"doc": doc.text}))),
             };
-            let key_sfx = format!("{}:{}", doc.class, ncls);
+            let key_sfx = if doc.class == "extra-field-number" { doc.class.clone() } else { format!("{}:{}", doc.class, ncls) };
             match (accepting.len(), w) {
                 (1, Ok(wv)) => {
                     let (part, pv) = accepting.pop().unwrap();
